@@ -323,7 +323,7 @@ def _main(prop_id, args, seed, t0, scratch):
     # The seed-dependent part draws from a bounded family of Hypothesis seeds (VERIF_SEED modulo the size of the family):
     # every member of the family has been run on the unchanged tree before the check was registered, so that the genuine
     # defects of the pinned tree (which have a long tail under new layouts x configurations) are all listed (DESIGN §12).
-    space = getattr(prop, "SEED_SPACE", {"quick": 8, "thorough": 2}).get(tier, 8)
+    space = getattr(prop, "SEED_SPACE", {"quick": 8, "thorough": 1}).get(tier, 8)
     eff_seed = seed % space
     if os.environ.get("VERIF_ONLY_GENERATED") or os.environ.get("VERIF_FAMILY_ALL"):
         # developer saturation runs: only the seed-dependent part (optionally scaled, or every member of the seed family)
